@@ -18,6 +18,9 @@ def _entries(db, qt_of, base_of, defcat_of, thorough):
     def cat(u):
         return defcat_of[u]
 
+    def foreign(u):
+        return "m" if qt_of[u] != "length" else "s"
+
     E = {
         "ObtainQuantity(u)": lambda s, u: P.outcome(ObtainQuantity, s),
         "ObtainQuantity(u,cat)": lambda s, u: P.outcome(ObtainQuantity, s, cat(u)),
@@ -47,6 +50,13 @@ def _entries(db, qt_of, base_of, defcat_of, thorough):
         "Quantity(cat,u) built directly": lambda s, u: P.outcome(lambda: __import__("barril.units").units.Quantity(cat(u), s)),
         "ObtainQuantity(u,cat,caption)": lambda s, u: P.outcome(ObtainQuantity, s, cat(u), "a caption"),
         "Scalar(v,u,cat) again": lambda s, u: P.outcome(Scalar, 1.5, s, cat(u)),
+        # an exact alias is also refused wherever the current spelling is refused: values of ANOTHER quantity type asked for this unit
+        "foreign Scalar.GetValue(u)": lambda s, u: P.outcome(lambda: Scalar(1.0, foreign(u)).GetValue(s)),
+        "foreign Array.GetValues(u)": lambda s, u: P.outcome(lambda: Array([1.0, 2.0], foreign(u)).GetValues(s)),
+        "foreign Convert(qt', v, u, x)": lambda s, u: P.outcome(lambda: db.Convert(qt_of[foreign(u)], foreign(u), s, 2.5)),
+        "foreign Convert(qt', u, v, x)": lambda s, u: P.outcome(lambda: db.Convert(qt_of[foreign(u)], s, foreign(u), 2.5)),
+        "foreign FractionScalar.GetValue(u)": lambda s, u: P.outcome(lambda: FractionScalar(cat(foreign(u)), value=1.5, unit=foreign(u)).GetValue(s)),
+        "foreign ObtainQuantity(u, cat')": lambda s, u: P.outcome(ObtainQuantity, s, cat(foreign(u))),
         "Convert(qt,u,base,FractionValue) as a number": lambda s, u: P.outcome(
             lambda: float(db.Convert(qt_of[u], s, base_of[qt_of[u]], __import__("barril.basic.fraction").basic.fraction.FractionValue(3, (1, 2))))),
         "Convert(qt,base,u,FractionValue) as a number": lambda s, u: P.outcome(
@@ -105,7 +115,7 @@ def main(tier):
             for name, fn in E.items():
                 a = json.dumps(P.out_proj(fn(s, u)), sort_keys=True)
                 b = json.dumps(P.out_proj(fn(u, u)), sort_keys=True)
-                events.append({"op": "Alias", "entry": name, "s": s, "u": u, "legacy": a, "current": b,
+                events.append({"op": "AliasRefused" if name.startswith("foreign") else "Alias", "entry": name, "s": s, "u": u, "legacy": a, "current": b,
                                "ok": a.startswith('{"ok"')})
         # category registration with legacy spellings, on a fresh database (registration mutates)
         db2 = export.build_db("default")
